@@ -218,6 +218,14 @@ extern MPT_INTERFACE(metatype) *mpt_iterator_poly(const char *desc, const _MPT_A
 			}
 			desc += len;
 		} while (++nc < ns);
+		/* further coefficients or other text do not fit */
+		if (nc == ns && mpt_cdouble(0, desc, 0) && !polyShifts(desc)) {
+			if (buf) {
+				buf->_vptr->unref(buf);
+			}
+			errno = EINVAL;
+			return 0;
+		}
 	}
 	/* variable shift */
 	ns = 0;
